@@ -45,9 +45,16 @@ def B(x):
     return lift(x)
 
 
+CANARY = [False]
+
+
 def pick(ctx, name, options):
-    """Enumerate `options` by forking on a fresh integer (so a counter-model records the choice as pk_<name>)."""
+    """Enumerate `options` by forking on a fresh integer (so a counter-model records the choice as pk_<name>).
+    During the runner's vacuity canary (a second exploration with falsified postconditions, of which only the first two live
+    paths are inspected) only the first two options of every choice are explored."""
     options = list(options)
+    if CANARY[0]:
+        options = options[:2]
     v = ctx.fresh("pk_" + name, "int")
     ctx.assume(z3.And(v.t >= 0, v.t < len(options)))
     for i in range(len(options) - 1):
@@ -294,6 +301,13 @@ class C(Contract):
         super().__init__(func, **kw)
         if label:
             self.frame_name = label
+
+    def verify(self, reg, mutate_goal=None):
+        CANARY[0] = mutate_goal is not None
+        try:
+            return super().verify(reg, mutate_goal)
+        finally:
+            CANARY[0] = False
 
 
 # ------------------------------------------------------------------------------------------------
@@ -1096,7 +1110,7 @@ def bin_setup_for(cfg):
     def setup(ctx):
         clsname, d, o, twin = op_base_setup(ctx, cfg)
         form = pick(ctx, "form", BIN_FORMS)
-        reducer = pick(ctx, "reducer", ("sum", "mean", "MEAN", "median"))
+        reducer = pick(ctx, "reducer", ("sum", "mean", "MEAN", "median") if form == "int,all-axes" else ("sum", "mean") if form == "tuple,all-axes" else ("sum",))
         mip = pick(ctx, "mip", (False, True))
         axes = None
         if form == "int,all-axes":
@@ -1135,7 +1149,8 @@ def fr_setup_for(cfg):
         clsname, d, o, twin = op_base_setup(ctx, cfg)
         # every resampled axis multiplies the number of paths by 12 (parity of both lengths x shrink/grow/equal): one resampled
         # axis for every configuration, all axes only for ndim == 1; the remaining axis sets are covered by the bounded check
-        forms = [f for f in FR_FORMS if (f != "out_shape,all-axes" or d == 1) and (f != "factors-tuple,axis-int" or cfg in (("Dataset", 2), ("Dataset4dstem", 4)))]
+        forms = [f for f in FR_FORMS if (f != "out_shape,all-axes" or d == 1) and (f != "factors-tuple,axis-int" or cfg in (("Dataset", 2), ("Dataset3d", 3)))
+                 and (f != "factors-scalar,axes=(last,)" or cfg in (("Dataset", 1), ("Dataset", 3), ("Dataset", 5), ("Dataset2d", 2), ("Dataset4dstem", 4)))]
         form = pick(ctx, "form", forms)
         mip = pick(ctx, "mip", (False, True))
         osh, fac, axes = None, None, None
@@ -1180,13 +1195,25 @@ OPS = C_PAD + C_CROP + C_BIN + C_FR
 # ------------------------------------------------------------------------------------------------
 
 
-def gi_entry(ctx, kind, p):
+def gi_entry(ctx, kind, p, n, edge):
+    """one explicit index entry for an axis of length n.  Main family: integers in range, steps outside {0, 1} (value classes
+    that the code / numpy treat specially are proved on the `edge` family, where nothing is assumed)."""
     if kind == "i":
-        return ctx.fresh(f"ix{p}", "int")
-    if kind in ("s", "t"):
+        ix = ctx.fresh(f"ix{p}", "int")
+        if not edge:
+            ctx.assume(z3.And(ix.t >= -lift(n), ix.t < lift(n)))
+        return ix
+    if kind in ("s", "t", "u"):
         a = OptInt(ctx.fresh(f"sa{p}_none", "bool").t, ctx.fresh(f"sa{p}", "int").t)
         b = OptInt(ctx.fresh(f"sb{p}_none", "bool").t, ctx.fresh(f"sb{p}", "int").t)
-        return slice(a, b, None if kind == "s" else ctx.fresh(f"st{p}", "int"))
+        if kind == "s":
+            return slice(a, b, None)
+        if kind == "u":
+            return slice(a, b, 1)
+        st = ctx.fresh(f"st{p}", "int")
+        if not edge:
+            ctx.assume(z3.And(st.t != 0, st.t != 1))
+        return slice(a, b, st)
     if kind == "l":
         return fresh_seq(ctx, f"li{p}", "int", pylist=True)
     raise ValueError(kind)
@@ -1195,26 +1222,28 @@ def gi_entry(ctx, kind, p):
 def gi_forms(d, k, reduced):
     """index forms for k explicit entries: a tuple, an Ellipsis at the start / after the first entry / at the end, a bare (non-tuple) index"""
     if reduced:
-        return ["tuple"]
+        return ["tuple"] + (["bare"] if k <= 1 else [])
     pos = sorted({0, min(1, k), k})
     if d >= 4 and k > 2:
         pos = []  # ndim 4, 5: Ellipsis forms with at most 2 explicit entries (the rest: bounded check)
     return ["tuple"] + [f"ellipsis@{p}" for p in pos] + (["bare"] if k <= 1 else [])
 
 
-ALPHABETS = {"A1": ("i", "s", "l"), "A2": ("i", "t", "l")}
+ALPHABETS = {"A1": ("i", "s", "l"), "A2": ("i", "t", "l"), "E": ("i", "t", "u")}
 
 
-def gi_setup_for(cfg, ks, alphabets, reduced):
+def gi_setup_for(cfg, ks, alphabets, reduced, edge=False):
     """Enumeration budget (everything else symbolic): per explicit position one of i / s / l (alphabet A1) or i / t / l (alphabet A2,
     at least one t), at most one list; slices without and with step are not mixed in one index (they meet through the
-    slice(None) entries produced by Ellipsis / short-index padding)."""
+    slice(None) entries produced by Ellipsis / short-index padding).  Edge family (alphabet E: i / t / u = literal step 1, at most
+    two explicit entries): integers and steps unconstrained - IndexError / ValueError exactly when numpy raises them, step 1."""
     def setup(ctx):
         clsname, d = cfg
         o = mk_ds(ctx, clsname, d)
+        shape = o.fields["_array"].shape
         k = pick(ctx, "k", ks)
-        form = pick(ctx, "form", gi_forms(d, k, reduced))
-        alpha = pick(ctx, "alphabet", alphabets) if k >= 1 else "A1"
+        form = pick(ctx, "form", gi_forms(d, k, reduced or edge))
+        alpha = (pick(ctx, "alphabet", alphabets) if len(alphabets) > 1 else alphabets[0]) if k >= 1 else alphabets[0]
         allowed = ALPHABETS[alpha]
         kinds = []
         for p in range(k):
@@ -1223,15 +1252,18 @@ def gi_setup_for(cfg, ks, alphabets, reduced):
             raise PathEnd("index leaves no axis (outside the property's range)")
         if alpha == "A2" and "t" not in kinds:
             raise PathEnd("already enumerated under alphabet A1")
-        entries = [gi_entry(ctx, kd, p) for p, kd in enumerate(kinds)]
+        if reduced and alpha == "A2" and k > 2:
+            raise PathEnd("subclass configurations: stepped slices with at most two explicit entries")
+        ell = int(form.split("@")[1]) if form.startswith("ellipsis") else None
+        axis_of = lambda p: p if (ell is None or p < ell) else p + (d - k)
+        entries = [gi_entry(ctx, kd, p, shape[axis_of(p)], edge) for p, kd in enumerate(kinds)]
         if form == "tuple":
             index = tuple(entries)
         elif form == "bare":
             index = entries[0] if k == 1 else Ellipsis
         else:
-            p = int(form.split("@")[1])
-            index = tuple(entries[:p]) + (Ellipsis,) + tuple(entries[p:])
-        s = NS(self=o, index=index, kinds=kinds, form=form, case=f"{form}:{','.join(kinds) or '-'}")
+            index = tuple(entries[:ell]) + (Ellipsis,) + tuple(entries[ell:])
+        s = NS(self=o, index=index, kinds=kinds, form=form, edge=edge, case=f"{form}:{','.join(kinds) or '-'}")
         # the property's reference: numpy's own indexing rule (trusted model) applied to the source array with the index AS GIVEN
         try:
             s.spec, s.spec_exc = cm.np_index(o.fields["_array"], index), None
@@ -1264,14 +1296,14 @@ def gi_requires(s):
 def gi_ensures(s):
     src, r = s.self, s.result
     d = s.old["_array"][1].ndim
-    out = [("class:result-is-a-new-dataset", B(isinstance(r, Obj) and r is not src))]
+    out = [("Inv(result):result-is-a-new-dataset", B(isinstance(r, Obj) and r is not src))]
     if not z3.is_true(out[0][1]):
         return tagged(out, s.case)
     spec = s.spec
     a = r.fields.get("_array")
     nd_out = spec.ndim
     reg_cls = Dataset._registry.get(nd_out, Dataset)
-    out.append(("class:same-class-when-ndim-is-kept / registered-class-of-the-new-ndim-otherwise", B(r.cls is (src.cls if nd_out == d else reg_cls))))
+    out.append(("Inv(result):same-class-when-ndim-is-kept / registered-class-of-the-new-ndim-otherwise", B(r.cls is (src.cls if nd_out == d else reg_cls))))
     out += inv_terms(r, "Inv(result)")
     out.append(("data:result-array-is-the-numpy-indexed-array", arr_eq(a, spec) if isinstance(a, SymArr) else FALSE))
     # calibration: result axis j carries the calibration of the source axis it came from; sampling multiplied by the slice step
@@ -1297,28 +1329,32 @@ def gi_ensures(s):
 
 def gi_contracts():
     out = []
+    rz = {IndexError: lambda s: isinstance(s.spec_exc, IndexError), ValueError: lambda s: isinstance(s.spec_exc, ValueError)}
     for cfg in CONFIGS:
         clsname, d = cfg
-        reduced = clsname != "Dataset"  # subclasses run the same body: tuple forms only (class selection is what differs)
-        if d <= 3 or reduced:
+        reduced = clsname != "Dataset"  # subclasses run the same body: tuple / bare forms only (class selection is what differs)
+        if d <= 4 or reduced:
             parts = [(tuple(range(0, d + 1)), ("A1", "A2"), "")]
-        elif d == 4:
-            parts = [(tuple(range(0, d)), ("A1", "A2"), ",k<4"), ((4,), ("A1",), ",k=4,A1"), ((4,), ("A2",), ",k=4,A2")]
         else:
-            parts = [(tuple(range(0, 4)), ("A1", "A2"), ",k<4"), ((4,), ("A1", "A2"), ",k=4"), ((5,), ("A1",), ",k=5,A1"), ((5,), ("A2",), ",k=5,A2")]
+            parts = [(tuple(range(0, 5)), ("A1", "A2"), ",k<5"), ((5,), ("A1",), ",k=5,A1"), ((5,), ("A2",), ",k=5,A2")]
         for ks, alphabets, tag in parts:
+            # main family: indices are in range and steps non-zero (assumed in setup), so ANY exception is a failed no-raise obligation
             c = C(f"{DS}:Dataset.__getitem__", label=f"Dataset.__getitem__[{clsname},ndim={d}{tag}]", setup=gi_setup_for(cfg, ks, alphabets, reduced),
-                  requires=gi_requires, ensures=gi_ensures, snapshot=op_snapshot, max_paths=100000,
-                  raises={IndexError: lambda s: isinstance(s.spec_exc, IndexError), ValueError: lambda s: isinstance(s.spec_exc, ValueError)})
+                  requires=gi_requires, ensures=gi_ensures, snapshot=op_snapshot, max_paths=100000)
             c.cfg = cfg
             out.append(c)
+        c = C(f"{DS}:Dataset.__getitem__", label=f"Dataset.__getitem__[{clsname},ndim={d},edge-values]",
+              setup=gi_setup_for(cfg, tuple(range(1, min(d, 2) + 1)), ("E",), True, edge=True),
+              requires=gi_requires, ensures=gi_ensures, snapshot=op_snapshot, max_paths=100000, raises=rz)
+        c.cfg = cfg
+        out.append(c)
     return out
 
 
 C_GETITEM = gi_contracts()
 
 REGISTERED = VALIDATORS + SETTER_CONTRACTS + CONSTRUCTION
-CONTRACTS = C_GETITEM
+CONTRACTS = REGISTERED + OPS + C_GETITEM
 LEMMAS = []
 BOUNDED = []
 TRUSTED = []
